@@ -492,7 +492,9 @@ def measure_tensor_binops():
     return out
 
 
-def translate(repo):
+def translate(repo, extra_classes=()):
+    """extra_classes: user subclasses of LinearOperator defined by the harness (e.g. opbuild's UserMinimal);
+    they are added to the class list with their runtime MRO and __dict__ (no source cross-check)."""
     src_path = os.path.join(repo, ROOT_FILE)
     tree = ast.parse(open(src_path).read())
     meta = {"repo": repo}
@@ -601,6 +603,12 @@ def translate(repo):
     root_cls = L.LinearOperator
     subs = all_subclasses(root_cls)
     lib = [c for c in subs if c.__module__.startswith("linear_operator.")]
+    extra = [c for c in extra_classes if c not in lib]
+    for c in extra:
+        if not issubclass(c, root_cls):
+            raise Untranslatable("extra class %s is not a LinearOperator" % c.__name__)
+    n_lib = len(lib)
+    lib = lib + extra
     names = [c.__name__ for c in lib]
     if len(set(names)) != len(names):
         raise Untranslatable("two library classes share a name")
@@ -626,12 +634,24 @@ def translate(repo):
     for c in lib:
         mro = [k for k in c.__mro__ if k is not object]
         for k in mro:
-            if not k.__module__.startswith("linear_operator."):
+            if not k.__module__.startswith("linear_operator.") and k not in extra:
                 raise Untranslatable("class %s has a base outside the library: %s" % (c.__name__, k))
             if k not in lib and k not in helper_classes:
                 helper_classes.append(k)
         mro_names[c.__name__] = [k.__name__ for k in mro]
     for c in lib + helper_classes:
+        if c in extra:
+            # harness-defined user subclass: runtime __dict__ only
+            ds = []
+            for nm in relevant:
+                if nm in c.__dict__:
+                    v = c.__dict__[nm]
+                    ds.append((nm, "MFun" if (callable(v) and not isinstance(v, (classmethod, staticmethod))) else "MOther"))
+            defines[c.__name__] = ds
+            for nm in SPECIAL:
+                if nm in c.__dict__:
+                    raise Untranslatable("%s overrides %s" % (c.__name__, nm))
+            continue
         if c.__name__ not in ast_classes:
             raise Untranslatable("class %s not found in the operator sources" % c.__name__)
         node, meths = ast_classes[c.__name__]
@@ -703,7 +723,8 @@ def translate(repo):
                "     w_defines := gen_defines; w_root := %s; w_tf := gen_tf; w_tensor_binop := gen_tensor_binop; w_bodies := gen_bodies |}.\n" % cstr(ROOT))
     meta.update({
         "first": first, "second": second, "classes": {c.__name__: mro_names[c.__name__] for c in lib},
-        "helpers": [c.__name__ for c in helper_classes],
+        "helpers": [c.__name__ for c in helper_classes], "extra": [c.__name__ for c in extra],
+        "relevant": relevant,
         "defines": {k: [list(x) for x in v] for k, v in defines.items()}, "binops": binops, "decorators": decos,
         "body_methods": BODY_METHODS,
     })
